@@ -178,9 +178,49 @@ CLAIMED["C15"] = {
     "technique": "Coq proof (case analysis of initialise_line / on_bell_ring; loop exit lemma) + correspondence",
 }
 
+CLAIMED["C10"] = {
+    "text": "Theorems: every exception that can escape a tick (the only way main_loop dies) comes from one of three "
+            "sources - no bell at the current place, the start-stroke assertion, the row generator; the assertion is "
+            "excluded in every reachable state (C06's system-wide invariant); place-notation / plain-hunt generators "
+            "never fail under their row invariant (C01); within a row the next tick finds its bell (row ends at "
+            "min(len(row), tower size): also when the tower grows mid-row, after the fix); the wait for a human has no "
+            "time-out and ends when the bell has rung (C09). Tied to the code by closed-loop bands (punctual, lagging, "
+            "erratic, early, absent), size changes during touches, both rhythms; oracle: no crash, every row completed, "
+            "the bell after an awaited human within one interval (+30 ms), keep-going on schedule.",
+    "design_ref": "DESIGN.md section 3, C10", "note": TBR + " Liveness under real OS scheduling is not modelled; the "
+            "bounded-lag statement is checked by the sessions, not proved (partial). Statement-level races are findings.",
+    "technique": "Coq proof (failure-source classification + system invariant) + correspondence",
+}
+CLAIMED["C18"] = {
+    "text": "Theorems for EVERY string: each parser returns a value or its OWN error (never a bare ValueError / "
+            "AssertionError), with Python's int()/strip()/isnumeric() modelled over code points from generated Unicode "
+            "tables; valid_pn accepts exactly what convert_pn converts; convert_pn never returns an empty notation; "
+            "whatever parse_place_notation / parse_call / parse_start_row accept builds a generator / call dictionary / "
+            "opening row. Tied to the code by exhaustive strings up to length 3 (4 thorough) over each parser's "
+            "alphabet, grammar-directed and malformed longer strings, composition references through the real "
+            "urlparse, the request URL, all 0x110000 code points of the classifier tables (sampled in quick), and "
+            "main.create_row_generator's exit behaviour.",
+    "design_ref": "DESIGN.md section 3, C18", "note": TB + " urlparse / argparse are library code outside the model; the "
+            "Unicode tables are generated from the running interpreter and compared with it on every run.",
+    "technique": "Coq proof (structural totality; validator = converter) + exhaustive-short-string correspondence",
+}
+CLAIMED["C19"] = {
+    "text": "Theorems: a selection only writes the queued generator and a malformed one leaves the state untouched; the "
+            "row turnover keeps the generator's identity; Look to gates on the queued generator; EVERY statement-level "
+            "interleaving (that respects the lock) of the selection handler with the size-change handler, with the Look-to "
+            "hand-over and of all three ends in the state of a sequential order, for every fit valuation (complete "
+            "enumeration in the kernel), and the same code without the lock does not; a peal-speed change keeps the blow "
+            "position of the instant of the change and takes the new slope; stop touch switches ringing off at once and "
+            "no further tick starts; roll call on entering the ringing loop only; exit only from the idle loop, in "
+            "server mode, after > 300 s. Tied to the code by server-mode sessions and by the REAL handlers on real "
+            "threads under a deterministic statement scheduler (sys.settrace + cooperative lock).",
+    "design_ref": "DESIGN.md section 3, C19", "note": TBR + " python-socketio's dispatch threading and CPython atomicity below "
+            "a statement are not modelled.",
+    "technique": "Coq proof (complete enumeration of lock-respecting merges by vm_compute; algebra over Q) + thread-scheduler correspondence",
+}
+
 _NYI = "check not built yet in this session; planned as a Coq proof (see DESIGN.md section 3)"
-NOT_APPLICABLE = {p: _NYI for p in
-                  ["C10", "C18", "C19"]}
+NOT_APPLICABLE = {}
 
 NOTES = ("All checks share harness/check.py. Exit 0 = property held on everything explored; exit 1 + VIOLATION line "
          "= violation or broken tie between model and code; exit 2 + BROKEN-CHECK = our own machinery failed.")
